@@ -44,15 +44,18 @@ type PeerPlan struct {
 	// + Y y (accept), - N n R r (reject), = L l H h (defer), !0 A0 a0 (accept from offset 0),
 	// !n An with n > 0 (resume from offset n: the peer then judges only the frame structure, the
 	// echoed offset and the checksum - what a resumed transfer carries is not settled by the documents).
-	Answers     map[string]string `json:"answers"`
-	BlockSize   int               `json:"block_size"` // 0 = PRNG 1..256 per data block, k = fixed
-	Comments    int               `json:"comments"`   // 0 none, 1 "; text" lines, 2 also ;PM: lines
-	EarlyFQ     bool              `json:"early_fq"`
-	DupInBlock  bool              `json:"dup_in_block"`
-	DupPos      int               `json:"dup_pos,omitempty"` // where the second copy of the block's first message goes: 0 = last, k = index k
-	MaxPerBlock int               `json:"max_per_block"` // 1..5 (0 = 5)
-	Gzip        bool              `json:"gzip"`
-	Record      bool              `json:"record"`
+	Answers    map[string]string `json:"answers"`
+	BlockSize  int               `json:"block_size"` // 0 = PRNG 1..256 per data block, k = fixed
+	Comments   int               `json:"comments"`   // 0 none, 1 "; text" lines, 2 also ;PM: lines
+	EarlyFQ    bool              `json:"early_fq"`
+	DupInBlock bool              `json:"dup_in_block"`
+	// HoldFirst: in its first turn the peer says FF although it has traffic (as if the traffic arrived a
+	// moment later), provided the station still has messages to send; it offers its messages from its next turn on.
+	HoldFirst   bool `json:"hold_first,omitempty"`
+	DupPos      int  `json:"dup_pos,omitempty"` // where the second copy of the block's first message goes: 0 = last, k = index k
+	MaxPerBlock int  `json:"max_per_block"`     // 1..5 (0 = 5)
+	Gzip        bool `json:"gzip"`
+	Record      bool `json:"record"`
 	// What the peer expects of the station under test (judged).
 	ExpectUAName, ExpectUAVersion, ExpectLocator string
 }
@@ -81,6 +84,7 @@ type Proposal struct {
 // Result is everything the peer observed.
 type Result struct {
 	ResumedTransfers int // transfers the peer asked to resume from an offset > 0
+	HeldTurns        int // turns in which the peer said FF while holding traffic back (plan.HoldFirst)
 	Complaints       []Complaint
 	Err              error  // why the peer stopped early (nil = session ended by FQ per protocol)
 	LibError         string // a "*** ..." line from the station under test
@@ -113,6 +117,7 @@ type peer struct {
 	res   *Result
 
 	pending     []OutMsg
+	heldOnce    bool
 	deferredNow map[string]bool
 	libDone     map[string]bool // library MIDs answered + or -
 	libNoMore   bool            // library's last turn was FF
@@ -349,6 +354,22 @@ func (p *peer) outTurn() (done bool, err error) {
 	for _, m := range p.pending {
 		if !p.deferredNow[m.MID] {
 			cand = append(cand, m)
+		}
+	}
+	if p.plan.HoldFirst && !p.heldOnce && len(cand) > 0 {
+		p.heldOnce = true
+		proposed := map[string]bool{}
+		for _, b := range p.res.Blocks {
+			for _, pr := range b {
+				proposed[pr.MID] = true
+			}
+		}
+		for mid := range p.truth {
+			if !proposed[mid] {
+				cand = nil // hold: the station has messages it has not offered yet, so the session goes on
+				p.res.HeldTurns++
+				break
+			}
 		}
 	}
 	if len(cand) == 0 {
